@@ -11,7 +11,7 @@ for d in seeded/*/; do
   id=$(basename $d); prop=${id%%-*}
   if ! git -C /repo diff --quiet; then echo "repo dirty"; exit 2; fi
   git -C /repo apply /verif/$d/patch.diff || { echo "| $id | $prop | - | patch does not apply |" >> $out; continue; }
-  res=$(./check $prop --tier quick 2>&1); rc=$?
+  t0=$(date +%s); res=$(./check $prop --tier quick 2>&1); rc=$?; t1=$(date +%s)
   git -C /repo checkout -- .
   lines=$(echo "$res" | grep -E "^(VIOLATION|OK)" | head -3 | sed 's/|/\\|/g' | tr '\n' ';' | sed 's/;/<br>/g')
   echo "| $id | $prop | $rc | $lines |" >> $out
@@ -20,4 +20,5 @@ for d in seeded/*/; do
   [ -n "$r" ] && [ -f "$r" ] && head -c 20000 "$r" > $d/replay-$prop.txt
   git ls-files --others --exclude-standard replays | xargs rm -f
 done
+/verif/.work/bin/extract /repo /verif/lean/TunnelModel/Generated/Facts.lean /verif/lean/TunnelModel/Generated/Locks.lean
 cat $out
